@@ -157,6 +157,7 @@ func runC01(c *vh.Ctx) {
 		a, b       string
 		okA, okB   bool
 		codeDiffer bool
+		da, db     time.Duration
 	}
 	outs := make([]outT, len(pairs))
 	vh.Parallel(len(pairs), func(i int) {
@@ -167,12 +168,16 @@ func runC01(c *vh.Ctx) {
 		if ea != nil {
 			o.a = "PARSE: " + ea.Error()
 		} else {
+			t := time.Now()
 			o.a, o.okA = c01Canon(c01RunProg(pa, p.Input)), true
+			o.da = time.Since(t)
 		}
 		if eb != nil {
 			o.b = "PARSE: " + eb.Error()
 		} else {
+			t := time.Now()
 			o.b, o.okB = c01Canon(c01RunProg(pb, p.Input)), true
+			o.db = time.Since(t)
 		}
 		if o.okA && o.okB {
 			o.codeDiffer = vh.DumpCode(pa) != vh.DumpCode(pb)
@@ -188,6 +193,12 @@ func runC01(c *vh.Ctx) {
 				c.Note("generated program does not parse (harness generator bug, case skipped): " + o.a + " / " + o.b + " :: " + p.A + " :: " + p.B)
 			}
 			c.Hit("skipped:parse")
+			continue
+		}
+		ta, tb := strings.Contains(o.a, "TIMEOUT after"), strings.Contains(o.b, "TIMEOUT after")
+		if (ta || tb) && (ta == tb || o.da > time.Second && o.db > time.Second) {
+			// a slow program (both spellings take seconds), not a spelling that loops for ever while the other finishes quickly
+			c.Hit("skipped:slow-program")
 			continue
 		}
 		c.Eval(p.A+"\x00"+p.B+"\x00"+p.Input, o.codeDiffer)
